@@ -19,13 +19,12 @@ UNITS['prx2'] = dict(SER, cxxflags=['-D__TBB_BUILD=1', '-DVP_PROXY=1'], threads=
 UNITS['prx3'] = dict(SER, cxxflags=['-D__TBB_BUILD=1', '-DVP_PROXY=1'], threads={'vp_thr_proxy': ['a', 'b', 'c']})
 UNITS['arena2'] = dict(wrapper='w_arena.cpp', mode='lcs', unroll=1, exceptions=True, prune=True, cut=['timed_spin_wait_until'], pure=['get_waiting_threads_monitor'], cxxflags=['-D__TBB_BUILD=1', '-mrtm', '-mwaitpkg'],
                        threads={'vp_thr_spawner': ['a'], 'vp_thr_idle': ['b']})
-EXEC = dict(wrapper='w_exec.cpp', mode='lcs', unroll=1, exceptions=True, prune=True, devirt=True, cut=['timed_spin_wait_until', 'enqueue_task'], pure=['pthread_getspecific'], noinline=['nested_arena_contextC2'],
+EXEC = dict(wrapper='w_exec.cpp', mode='lcs', unroll=1, exceptions=True, prune=True, devirt=True, cut=['timed_spin_wait_until', 'enqueue_task'], pure=['pthread_getspecific'], ptrhooks=True,
             cxxflags=['-D__TBB_BUILD=1', '-mrtm', '-mwaitpkg'],
             # destructors that stay out-of-line only on the exceptional clean-up paths (landing pads) of task_arena_impl::execute; no stub throws, so those
             # paths are dead; every normal-path call of them is inlined (checked in the IR)
             allow_atomic=['_ZN3tbb6detail2d118task_group_contextD2Ev', '_ZN3tbb6detail2d123task_scheduler_observerD2Ev', '_ZN3tbb6detail2r110sleep_nodeImED2Ev',
-                          '_ZN3tbb6detail2r114delegated_taskD2Ev', '_ZN3tbb6detail2r120nested_arena_contextD2Ev', '__clang_call_terminate',
-                          '_ZN3tbb6detail2r120nested_arena_contextC2ERNS1_11thread_dataERNS1_5arenaEm'])
+                          '_ZN3tbb6detail2r114delegated_taskD2Ev', '_ZN3tbb6detail2r120nested_arena_contextD2Ev', '__clang_call_terminate'])
 UNITS['exec_ew'] = dict(EXEC, threads={'vp_thr_entrant': ['a'], 'vp_thr_worker': ['b']})
 UNITS['exec_elw'] = dict(EXEC, threads={'vp_thr_entrant': ['a'], 'vp_thr_leaver': ['b'], 'vp_thr_worker': ['c']})
 COMMON = dict(cbmc=['--unwind', '8', '--object-bits', '12'], native_cflags=['-fno-sanitize=null,pointer-overflow'], mem_gb=8)
